@@ -41,6 +41,14 @@ class Pos:
         header = HEADER
         if "names_like_scale_info_items" in self.tags:
             header = "#![allow(dead_code, unused_imports, unused_variables, non_camel_case_types)]\nuse scale_info::TypeInfo;\nuse std::marker::PhantomData;\n"
+        if "first_derive" in self.tags:
+            # the definition under test holds the first derive of the crate (the helpers with their own derive come after it)
+            s = header + "\n// BEGIN-DEF\n" + self.body + "\n// END-DEF\n" + HELPERS + "\n\npub fn observe() -> Vec<(&'static str, Vec<(String, bool)>)> {\n    let mut out = Vec::new();\n"
+            for inst, _pattern in self.insts:
+                s += "    {\n        let t: scale_info::Type = <%s as TypeInfo>::type_info();\n" % inst
+                s += "        out.push((%s, t.type_params.iter().map(|p| (p.name.to_string(), p.ty.is_some())).collect()));\n    }\n" % json.dumps(inst)
+            s += "    out\n}\n"
+            return s
         s = header + HELPERS + "\n// BEGIN-DEF\n" + self.body + "\n// END-DEF\n\npub fn observe() -> Vec<(&'static str, Vec<(String, bool)>)> {\n    let mut out = Vec::new();\n"
         for inst, _pattern in self.insts:
             s += "    {\n        let m: scale_info::MetaType = scale_info::meta_type::<%s>();\n        let t: scale_info::Type = <%s as TypeInfo>::type_info();\n        let _ = m;\n" % (inst, inst)
@@ -130,7 +138,7 @@ def positives(seed, n_seeded):
          variants_extra="    #[codec(index = 9)]\n    #[codec(skip)]\n    Cached(NoInfoOf<T>),\n    #[codec(index = 10)]\n    #[doc = \"x\"]\n    #[codec(skip)]\n    CachedNamed { y: NoInfo },\n")
     # a crate path given through an alias that exists only inside one module, followed by a derive elsewhere without the attribute
     add("pub mod inner {\n    use scale_info as si;\n    use scale_info::TypeInfo;\n    #[derive(TypeInfo)]\n    #[scale_info(crate = si)]\n    pub struct First<T>(pub T);\n}\n#[derive(TypeInfo)]\npub struct S<T> {\n    a: inner::First<T>,\n    b: T,\n}",
-        [("S<u8>", [("T", S)]), ("inner::First<u16>", [("T", S)])], ["crate_attr", "two_derives"])
+        [("S<u8>", [("T", S)]), ("inner::First<u16>", [("T", S)])], ["crate_attr", "two_derives", "first_derive"])
     add("#[derive(TypeInfo)]\npub struct S<T> {\n    b: T,\n}\npub mod inner {\n    use scale_info as si;\n    use scale_info::TypeInfo;\n    #[derive(TypeInfo)]\n    #[scale_info(crate = si)]\n    pub enum Second<T> { A(T), B }\n}",
         [("S<u8>", [("T", S)]), ("inner::Second<u16>", [("T", S)])], ["crate_attr", "two_derives"])
     # inline bounds that mention a lifetime parameter
